@@ -70,7 +70,7 @@ func c01Streams(S []byte) [][]byte {
 }
 
 func c01Run(ctx *core.Ctx) {
-	maxLen, nRand, nCutSeeded := 6, 4000, 5
+	maxLen, nRand, nCutSeeded := 6, 12000, 6
 	allCutsUpTo := 0
 	if ctx.Thorough() {
 		maxLen, nRand, nCutSeeded = 8, 150000, 12
